@@ -40,6 +40,8 @@ CLASS_SPECS = [
     ["Node", "SymlinkNodeU"],
     "HSlotStoreNM",
     "HSideNM",
+    "HCopyNM",
+    "HCopyLM",
     ["HSideNM", "HNM", "HSlotStoreNM"],
 ]
 
@@ -182,7 +184,7 @@ def plan(tier, seed):
         for i in range(nshards):
             tasks.append({"engine": "hyp", "examples": examples, "seed": seed * 1000 + i + 100 * assertions, "assertions": assertions})
             tasks.append({"engine": "blind-hyp", "examples": examples, "seed": seed * 1000 + 400 + i + 100 * assertions, "assertions": assertions})
-        for spec in ("HNM", "HLM", "HNode", ["HNM", "HLM"], ["HDictLM", "HNode"]) if (tier == "thorough" or assertions == 1) else ():
+        for spec in ("HNM", "HLM", "HNode", ["HNM", "HLM"], ["HDictLM", "HNode"], "HCopyLM", "HCopyNM", "HSideNM") if (tier == "thorough" or assertions == 1) else ():
             for n, length in ([(2, 3), (3, 2)] if tier == "quick" else [(2, 4), (3, 3)]):
                 shards = 4 if (n, length) == (2, 3) else nshards
                 for i in range(shards):
